@@ -272,14 +272,43 @@ def install_collect_impl(w):
     w.shape("FragmentDetails", definition="ref:FragmentDefinitionNode", variable_signatures="dyn")
     w.shape("DeferUsage", label="opt:str", parent_defer_usage="opt:ref:DeferUsage")
 
+    # @skip / @include (CollectFields 3.a/3.b): a selection is left out exactly when @skip's `if` is
+    # true or @include's `if` is false - @skip is looked at first; when the two directives are
+    # forbidden (subscription root selection) their presence excludes the selection and is recorded.
+    # The directive's argument values come from get_argument_values (assumed).
+    w.alias("CollectFieldsContext", f"{CF}.CollectFieldsContext")
+    w.shape("CollectFieldsContext", schema="opaque", fragments="opaque", variable_values="opaque",
+            operation="opaque", runtime_type="opaque", visited_fragment_names="opaque",
+            hide_suggestions="bool", forbidden_directive_instances=("list", "dyn"),
+            forbid_skip_and_include="bool")
     w.contract(f"{CF}.should_include_node",
-               params={"context": "opaque", "node": "ref:SelectionNode", "variable_values": "opaque",
-                       "fragment_variable_values": "opaque"},
-               returns="bool",
-               # ghosts: the number of calls, and the last answer (read by collect_fields_impl's
-               # per-iteration contract: a selection that is not included has no effect at all)
-               ensures=["ghost('incl') == ite(result, 1, 0)"], ghost_modifies=["incl"],
-               ghost_calls=["incl_calls"], raises=["GraphQLError"], assumed=True)
+               params={"context": "ntuple:CollectFieldsContext", "node": "ref:SelectionNode",
+                       "variable_values": "dyn", "fragment_variable_values": "dyn"},
+               returns="bool", ensures=[],
+               # ghosts read by collect_fields_impl's per-iteration contract: the number of calls and
+               # the last answer (a definition of the ghost, not a claim about the code)
+               assumed_ensures=["ghost('incl') == ite(result, 1, 0)"], ghost_modifies=["incl"],
+               ghost_calls=["incl_calls"], raises=["GraphQLError"], modifies=[],
+               exit_post=[
+                   "implies(truthy(skip_directive_node) and context.forbid_skip_and_include, not result)",
+                   "implies(truthy(skip) and truthy(skip['if']), not result)",
+                   "implies(truthy(include_directive_node) and context.forbid_skip_and_include, not result)",
+                   "implies(truthy(include) and not truthy(include['if']), not result)",
+                   # and nothing else excludes a selection
+                   "implies(not result,"
+                   " (truthy(skip_directive_node) and context.forbid_skip_and_include)"
+                   " or (truthy(skip) and truthy(skip['if']))"
+                   " or (truthy(include_directive_node) and context.forbid_skip_and_include)"
+                   " or (truthy(include) and not truthy(include['if'])))"],
+               call_pre={
+                   "get_argument_values#1": ["arg_node is skip_directive_node",
+                                             "same(arg_variable_values, variable_values)",
+                                             "same(arg_fragment_variable_values, fragment_variable_values)"],
+                   "get_argument_values#2": ["arg_node is include_directive_node",
+                                             "same(arg_variable_values, variable_values)",
+                                             "same(arg_fragment_variable_values, fragment_variable_values)"]},
+               waive=["`skip['if']`", "`include['if']`"],
+               props={"C02", "C13"})
     w.contract(f"{CF}.get_defer_usage",
                params={"variable_values": "opaque", "fragment_variable_values": "opaque",
                        "node": "ref:SelectionNode", "parent_defer_usage": "opaque"},
